@@ -62,9 +62,13 @@ func randPlan(rng *rand.Rand, nk, n int) []step {
 	failPct := []int{0, 10, 25, 50}[rng.Intn(4)]
 	gatePct := []int{0, 15, 35}[rng.Intn(3)]
 	hot := rng.Intn(nk) + 1
+	cancelPct := []int{0, 8, 16}[rng.Intn(3)]
 	for i := 0; i < n; i++ {
-		if rng.Intn(100) < 30 {
+		if x := rng.Intn(100); x < 27 {
 			out = append(out, step{Op: "rel"})
+			continue
+		} else if x < 27+cancelPct {
+			out = append(out, step{Op: "cancel"})
 			continue
 		}
 		k := rng.Intn(nk) + 1
@@ -112,7 +116,17 @@ func runStress(w *tr.W, rng *rand.Rand, cfg config, threads, per int) {
 		go func() {
 			defer wg.Done()
 			for i := 0; i < per; i++ {
-				wd.submit(opNames[r.Intn(len(opNames))], r.Intn(cfg.NK)+1, pattern(r, failPct, 2), nil)()
+				o, body := wd.submit2(opNames[r.Intn(len(opNames))], r.Intn(cfg.NK)+1, pattern(r, failPct, 2), nil)
+				if r.Intn(10) == 0 { // the caller's context ends at some point of the call
+					n := r.Intn(4)
+					go func() {
+						for j := 0; j < n; j++ {
+							runtime.Gosched()
+						}
+						o.cancel()
+					}()
+				}
+				body()
 				if r.Intn(4) == 0 {
 					runtime.Gosched()
 				}
